@@ -14,6 +14,7 @@ import (
 	"os/exec"
 	"sort"
 	"strings"
+	"sync"
 	"syscall"
 	"time"
 )
@@ -132,6 +133,62 @@ func (m *Model) AskBatch(lines []string) ([]string, error) {
 		return res, err
 	}
 	m.Lines += len(lines)
+	return res, nil
+}
+
+// AskParallel answers independent request lines with n driver processes (for STATELESS drivers,
+// i.e. every line is answered on its own): the lines are split into n contiguous chunks, each
+// piped through its own process; answers come back in request order.
+func AskParallel(path string, lines []string, n int) ([]string, error) {
+	if n < 1 {
+		n = 1
+	}
+	if n > len(lines) {
+		n = len(lines)
+	}
+	if n <= 1 {
+		m, err := StartModel(path)
+		if err != nil {
+			return nil, err
+		}
+		defer m.Close()
+		return m.AskBatch(lines)
+	}
+	res := make([]string, len(lines))
+	errs := make([]error, n)
+	var wg sync.WaitGroup
+	per := (len(lines) + n - 1) / n
+	for k := 0; k < n; k++ {
+		lo, hi := k*per, (k+1)*per
+		if hi > len(lines) {
+			hi = len(lines)
+		}
+		if lo >= hi {
+			continue
+		}
+		wg.Add(1)
+		go func(k, lo, hi int) {
+			defer wg.Done()
+			m, err := StartModel(path)
+			if err != nil {
+				errs[k] = err
+				return
+			}
+			defer m.Close()
+			ans, err := m.AskBatch(lines[lo:hi])
+			if err != nil {
+				errs[k] = err
+				return
+			}
+			copy(res[lo:hi], ans)
+		}(k, lo, hi)
+	}
+	wg.Wait()
+	for _, e := range errs {
+		if e != nil {
+			return nil, e
+		}
+	}
 	return res, nil
 }
 
